@@ -388,4 +388,30 @@ def run(ctx, ck):
                        'for that medium' % (attr, 'written' if em_ else 'NOT written',
                                             ['%s=%s' % (t_, b_) for t_, b_ in pc if isinstance(b_, bool)], guard, val))
             ck.ob('R-SIB.media-prompts', '%s|%s' % (q, attr), ok, g.loc(), why)
+    # BASIC grounds a wire end only when its Z coordinate is exactly 0: an end this model treats as grounded
+    # (within the tolerance) must be put on the ground in the coordinates the writer prints (p1 / p2)
+    ck.rule('R-SNAP.grounded-end', 'a wire end within the ground tolerance is stored with z = 0 exactly')
+    wg = m.resolve_method('Wire', 'compute_ground')
+    sx_ = SymExec(ctx, wg, bind_loops=True, effects=True, depth=2, max_paths=2000)
+    sx_.self_cls = 'Wire'
+    snapped, other = set(), []
+    for p_ in sx_.run():
+        if p_.end == 'raise':
+            continue
+        for ev in p_.events:
+            if ev[0] == 'store' and isinstance(ev[2], ast.Constant) and ev[2].value in (0, 0.0) and \
+               not isinstance(ev[2].value, bool) and re.search(r'\[(-1|2)\]$', ev[1]):
+                mo_ = re.match(r'^self\.(p[12])\[(-1|2)\]$', ev[1])
+                if mo_:
+                    snapped.add(mo_.group(1))
+                else:
+                    other.append((ev[1], ev[3]))
+    if not snapped and not other:
+        raise AnalysisError('%s: no store of z = 0 for a grounded end found' % wg.qual)
+    oks = snapped == {'p1', 'p2'}
+    ck.ob('R-SNAP.grounded-end', wg.qual, oks, wg.loc(other[0][1]) if (other and not oks) else wg.loc(),
+          'both ends are put on the ground plane exactly (p1[-1] / p2[-1] = 0.0 within the tolerance)' if oks else
+          'z = 0 is stored into %s but not into %s: the coordinates written to the BASIC input keep their tiny non-zero '
+          'height and BASIC reads the end as free' % (sorted({k_ for k_, n_ in other}) or 'nothing',
+                                                      sorted({'p1', 'p2'} - snapped)))
     ck.undecided += ['true prompt order of the BASIC program', 're-reading the answers as MININEC would']
